@@ -8,6 +8,11 @@ VERIF = os.path.dirname(os.path.dirname(os.path.abspath(__file__)))
 only = sys.argv[1:]
 cases = sorted(glob.glob(VERIF + "/selftest/*/meta.json") + glob.glob(VERIF + "/seeded/*/meta.json"))
 bad = 0
+# a frozen copy of the engine, so that rebuilding it while the corpus runs does not mix versions
+fd, BIN = tempfile.mkstemp(prefix="gvc-frozen-")
+os.close(fd)
+shutil.copy(VERIF + "/bin/gvc", BIN)
+os.chmod(BIN, 0o755)
 for meta in cases:
     d = os.path.dirname(meta)
     name = os.path.basename(d)
@@ -27,7 +32,7 @@ for meta in cases:
             continue
         detected = []
         for p in props:
-            out = subprocess.run([VERIF + "/bin/gvc", "check", "-repo", wt, "-verif", VERIF, "-no-evidence", p], capture_output=True, text=True).stdout
+            out = subprocess.run([BIN, "check", "-repo", wt, "-verif", VERIF, "-no-evidence", p], capture_output=True, text=True).stdout
             if "VIOLATION property=" + p in out:
                 detected.append(p)
         if detected:
@@ -38,4 +43,5 @@ for meta in cases:
     finally:
         subprocess.run(["git", "-C", "/repo", "worktree", "remove", "--force", wt])
         shutil.rmtree(wt, ignore_errors=True)
+os.remove(BIN)
 sys.exit(1 if bad else 0)
